@@ -392,8 +392,11 @@ def run_cases(lines, name, impl_cmd=None, timeout=1800):
     with open(path, "w") as f:
         f.write("\n".join(lines) + "\n")
     impl_cmd = impl_cmd or [os.path.join(BIN, "corehar"), "run"]
-    rc1, out1, err1 = run(impl_cmd + [path], timeout=timeout)
-    rc2, out2, err2 = run([os.path.join(BIN, "driver"), path], timeout=timeout)
+    if impl_cmd == ["true"]:
+        rc1, out1, err1 = 0, "", ""
+    else:
+        rc1, out1, err1 = run(impl_cmd + [path], timeout=timeout)
+    rc2, out2, err2 = run([os.path.join(BIN, "driver"), path, os.path.join(BIN, "codec")], timeout=timeout)
     def parse(out):
         res = {}
         for l in out.splitlines():
